@@ -28,9 +28,13 @@ FEEDBACKS = [
     ("get_nohint_s", None, None, "str"),
     ("get_nohint_b", None, None, "bool"),
     ("nohint_key", "k2", None, "float"),
+    ("get_samples", None, "list[float]", "mutlist"),  # returns the same list object every time, mutated in place
+    ("get_log", None, None, "mutstrs"),  # same, without annotation
+    ("get_over", None, "int", "int"),  # on c1 this overrides an inherited @feedback of the same name
 ]
 FEEDBACKS = [f for f in FEEDBACKS if f[0] != "get_"]
-TYPESTR = {"float": "double", "int": "int", "bool": "boolean", "str": "string", "ints": "int[]", "floats": "double[]", "strs": "string[]", "bools": "boolean[]", "rot": "struct:Rotation2d", "rots": "struct:Rotation2d[]"}
+_MUT = {}
+TYPESTR = {"mutlist": "double[]", "mutstrs": "string[]", "float": "double", "int": "int", "bool": "boolean", "str": "string", "ints": "int[]", "floats": "double[]", "strs": "string[]", "bools": "boolean[]", "rot": "struct:Rotation2d", "rots": "struct:Rotation2d[]"}
 
 
 def expected_key(name, key):
@@ -39,9 +43,15 @@ def expected_key(name, key):
     return name[4:] if name.startswith("get_") else name
 
 
-def value_for(kind, n, salt=0):
+def value_for(kind, n, salt=0, site=None):
     from wpimath.geometry import Rotation2d
 
+    if kind in ("mutlist", "mutstrs"):
+        lst = _MUT.setdefault(site, [])
+        if n == 1:
+            del lst[:]
+        lst.append(float(n + salt) if kind == "mutlist" else f"m{n + salt}")
+        return lst  # the very same object on every call
     n = n + salt
     return {
         "float": n * 0.5,
@@ -85,7 +95,12 @@ def the_layout(v):
     c = R.comp
     comps = [c("c0", fb=False, extra_src=fb_src("c0")), c("c1", fb=False, extra_src=fb_src("c1"))]
     lay = R.layout(f"fb{v}", comps if v == 0 else comps[::-1], auto=(v == 0), teleop_in_auto=False, p_us=20000, robot_fb=False, robot_extra=fb_src("robot"))
-    lay["prelude"] = "from collections.abc import Sequence\nfrom wpimath.geometry import Rotation2d\n"
+    lay["prelude"] = (
+        "from collections.abc import Sequence\nfrom wpimath.geometry import Rotation2d\n"
+        "class FBBase:\n    @feedback\n    def get_over(self) -> int:\n        return _fbval('base.fb.get_over', self)\n"
+        "    @feedback\n    def get_inherited(self) -> int:\n        return 77\n"
+    )
+    lay["c1_parent"] = "FBBase"
     return lay
 
 
@@ -93,7 +108,10 @@ _orig_source = R.robot_source
 
 
 def robot_source(lay):
-    return lay.get("prelude", "") + _orig_source(lay)
+    src = _orig_source(lay)
+    if lay.get("c1_parent"):
+        src = src.replace("class K_c1():", f"class K_c1({lay['c1_parent']}):")
+    return lay.get("prelude", "") + src
 
 
 R.robot_source = robot_source
@@ -104,7 +122,7 @@ OWNERS = [("c0", "/components/c0/"), ("c1", "/components/c1/"), ("robot", "/robo
 def fbvalue(site, n):
     owner, _fb, name = site.split(".", 2)
     kind = next(k for nm, _k, _a, k in FEEDBACKS if nm == name)
-    return value_for(kind, n, salt={"c0": 0, "c1": 100, "robot": 1000}[owner])
+    return value_for(kind, n, salt={"c0": 0, "c1": 100, "robot": 1000}[owner], site=site)
 
 
 def observe(robot, k, inst):
@@ -158,7 +176,12 @@ def check(lay, h, life, plan):
                     out.append((f"calls-per-iteration:{owner if owner == 'robot' else 'component'}", f"history {h!r} step {k} (mode {st['mode']}): {site} called {len(calls)} times in one iteration"))
                     return out
                 val, typ, exists = st["obs"][f"{owner}.{name}"]
-                if calls[0] is not None:
+                if calls[0] is not None and kind in ("mutlist", "mutstrs"):
+                    salt = {"c0": 0, "c1": 100, "robot": 1000}[owner]
+                    exp = [float(i + salt) if kind == "mutlist" else f"m{i + salt}" for i in range(1, calls[0] + 1)]
+                    last[site] = exp
+                    fresh = True
+                elif calls[0] is not None:
                     exp = norm(fbvalue(site, calls[0]))
                     last[site] = exp
                     fresh = True
